@@ -2,8 +2,8 @@ import NessaiVerif.Model.Accounts
 import NessaiVerif.Model.AccountsTables
 /-
 C12 — helper lemmas: the invariant that links the code-shaped account state (`St`: counters that restart at 0 in a
-fresh process and are re-seeded with `+=` from the pickle, a sampling clock with a re-armed start) with the
-commit log (`Log`), preserved by every step.
+fresh process and are re-seeded with `+=` from the pickle, a sampling clock whose start is re-armed at the loop entry)
+with the commit log (`Log`), preserved by every step.
 -/
 namespace NessaiVerif.Accounts
 
@@ -17,40 +17,39 @@ theorem sumL_append (a b) : sumL (a ++ b) = sumL a + sumL b := by simp [sumL, Li
 @[simp] theorem sumT_single (e t l) : sumT [(e, t, l)] = t := by simp [sumT]
 @[simp] theorem sumL_single (e t l) : sumL [(e, t, l)] = l := by simp [sumL]
 
-/-- The counters part of the invariant (needs only a fresh model on every launch). -/
+/-- The counters part of the invariant (needs only a fresh model on every resume). -/
 structure InvC (s : St) (l : Log) : Prop where
-  alive : s.alive = l.alive
+  alive : l.alive = s.alive
+  inLoop : l.inLoop = s.inLoop
+  dead : s.alive = false → s.inLoop = false
   noFile : s.file = none → l.committed = []
   fileE : ∀ sv, s.file = some sv → sv.evals = sumE l.committed ∧ sv.ltime = sumL l.committed
   liveE : s.alive = true → s.mEvals = sumE l.committed + sumE l.pending
   liveL : s.alive = true → s.mLtime = sumL l.committed + sumL l.pending
 
-/-- The sampling-time part (needs the loop to re-arm the start). -/
+/-- The sampling-time part (needs the loop to re-arm the start and every checkpoint to be written inside the loop). -/
 structure InvT (s : St) (l : Log) : Prop where
   fileT : ∀ sv, s.file = some sv → sv.stime = sumT l.committed
   liveS : s.alive = true → s.stime = sumT l.committed
-  liveP : s.alive = true → s.start ≤ s.clock ∧ s.clock - s.start = sumT l.pending
+  liveP : s.alive = true → s.inLoop = true → s.start ≤ s.clock ∧ s.clock - s.start = sumT l.pending
+  preP : s.alive = true → s.inLoop = false → sumT l.pending = 0
 
-/-- The weaker sampling-time invariant that survives a stale start (importance sampler). -/
+/-- The weaker sampling-time invariant that needs neither (stale start, checkpoints anywhere). -/
 structure InvTle (s : St) (l : Log) : Prop where
   fileT : ∀ sv, s.file = some sv → sumT l.committed ≤ sv.stime ∧ sv.start ≤ s.clock
   liveS : s.alive = true → sumT l.committed ≤ s.stime
   liveP : s.alive = true → s.start ≤ s.clock ∧ sumT l.pending ≤ s.clock - s.start
+  preP : s.alive = true → s.inLoop = false → sumT l.pending = 0
 
-theorem invC_init : InvC {} {} := by
-  constructor <;> simp
-
-theorem invT_init : InvT {} {} := by
-  constructor <;> simp
-
-theorem invTle_init : InvTle {} {} := by
-  constructor <;> simp
+theorem invC_init : InvC {} {} := by constructor <;> simp
+theorem invT_init : InvT {} {} := by constructor <;> simp
+theorem invTle_init : InvTle {} {} := by constructor <;> simp
 
 theorem invC_step (c : Cfg) (hf : c.freshModel = true) (s : St) (l : Log) (op : Op) (h : InvC s l) :
     InvC (step c s op) (logStep l op) := by
-  obtain ⟨ha, hn, hfe, hle, hll⟩ := h
+  obtain ⟨ha, hi, hd, hn, hfe, hle, hll⟩ := h
   cases op with
-  | launch =>
+  | resume =>
     cases hfile : s.file with
     | none =>
       have hc := hn hfile
@@ -58,115 +57,130 @@ theorem invC_step (c : Cfg) (hf : c.freshModel = true) (s : St) (l : Log) (op : 
     | some sv =>
       have ⟨h1, h2⟩ := hfe sv hfile
       constructor <;> simp [step, logStep, hfile, hf, h1, h2]
+  | enterLoop =>
+    cases hal : s.alive <;> cases hil : s.inLoop <;>
+      (constructor <;> simp_all [step, logStep])
   | run e t lt =>
-    by_cases hal : s.alive = true
-    · have hal' : l.alive = true := by rw [← ha]; exact hal
+    cases hal : s.alive with
+    | true =>
       have h1 := hle hal
       have h2 := hll hal
       constructor
-      · simp [step, logStep, hal, hal']
-      · intro hfile; simp [step, hal] at hfile; simp [logStep, hal', hn hfile]
-      · intro sv hfile; simp [step, hal] at hfile; simpa [logStep, hal'] using hfe sv hfile
-      · intro _; simp [step, logStep, hal, hal', sumE_append, h1]; omega
-      · intro _; simp [step, logStep, hal, hal', sumL_append, h2]; omega
-    · have hal0 : s.alive = false := by simpa using hal
-      have hal' : l.alive = false := by rw [← ha]; exact hal0
-      constructor <;> simp_all [step, logStep]
+      · simp [step, logStep, hal, ha]
+      · simp [step, logStep, hal, ha, hi]
+      · simp [step, hal]
+      · intro hfile; simp [step, hal] at hfile; simp [logStep, ha, hal, hn hfile]
+      · intro sv hfile; simp [step, hal] at hfile; simpa [logStep, ha, hal] using hfe sv hfile
+      · intro _; simp [step, logStep, hal, ha, sumE_append, h1]; omega
+      · intro _; simp [step, logStep, hal, ha, sumL_append, h2]; omega
+    | false => constructor <;> simp_all [step, logStep]
   | checkpoint =>
-    by_cases hal : s.alive = true
-    · have hal' : l.alive = true := by rw [← ha]; exact hal
+    cases hal : s.alive with
+    | true =>
       have h1 := hle hal
       have h2 := hll hal
       constructor
-      · simp [step, logStep, hal, hal']
+      · simp [step, logStep, hal, ha]
+      · simp [step, logStep, hal, ha, hi]
+      · simp [step, hal]
       · intro hfile; simp [step, hal] at hfile
       · intro sv hfile
         simp [step, hal] at hfile
         subst hfile
-        simp [logStep, hal', sumE_append, sumL_append, h1, h2]
-      · intro _; simp [step, logStep, hal, hal', sumE_append, h1]
-      · intro _; simp [step, logStep, hal, hal', sumL_append, h2]
-    · have hal0 : s.alive = false := by simpa using hal
-      have hal' : l.alive = false := by rw [← ha]; exact hal0
-      constructor <;> simp_all [step, logStep]
+        simp [logStep, ha, hal, sumE_append, sumL_append, h1, h2]
+      · intro _; simp [step, logStep, hal, ha, sumE_append, h1]
+      · intro _; simp [step, logStep, hal, ha, sumL_append, h2]
+    | false => constructor <;> simp_all [step, logStep]
   | kill =>
     constructor
     · simp [step, logStep]
+    · simp [step, logStep]
+    · simp [step]
     · intro hfile; simp [step] at hfile; simpa [logStep] using hn hfile
     · intro sv hfile; simp [step] at hfile; simpa [logStep] using hfe sv hfile
     · simp [step]
     · simp [step]
   | down d =>
-    by_cases hal : s.alive = true
-    · constructor <;> simp_all [step, logStep]
-    · have hal0 : s.alive = false := by simpa using hal
-      constructor
-      · simp [step, logStep, hal0, ha.symm ▸ hal0]
-      · intro hfile; simp [step, hal0] at hfile; simpa [logStep] using hn hfile
-      · intro sv hfile; simp [step, hal0] at hfile; simpa [logStep] using hfe sv hfile
-      · simp [step, hal0]
-      · simp [step, hal0]
+    cases hal : s.alive <;> (constructor <;> simp_all [step, logStep])
 
 theorem invT_step (c : Cfg) (hr : c.resetStart = true) (s : St) (l : Log) (op : Op)
+    (hck : op = Op.checkpoint → s.alive = true → s.inLoop = true)
     (hc : InvC s l) (h : InvT s l) : InvT (step c s op) (logStep l op) := by
-  obtain ⟨ha, hn, _, _, _⟩ := hc
-  obtain ⟨hft, hls, hlp⟩ := h
+  obtain ⟨ha, hi, hd, hn, _, _, _⟩ := hc
+  obtain ⟨hft, hls, hlp, hpp⟩ := h
   cases op with
-  | launch =>
+  | resume =>
     cases hfile : s.file with
     | none =>
       have hcm := hn hfile
       constructor <;> simp [step, logStep, hfile, hcm]
     | some sv =>
       have h1 := hft sv hfile
-      constructor <;> simp [step, logStep, hfile, hr, h1]
+      constructor <;> simp [step, logStep, hfile, h1]
+  | enterLoop =>
+    cases hal : s.alive with
+    | false => constructor <;> simp_all [step, logStep]
+    | true =>
+      cases hil : s.inLoop with
+      | true => constructor <;> simp_all [step, logStep]
+      | false =>
+        have h0 := hpp hal hil
+        have h1 := hls hal
+        constructor
+        · intro sv hfile; simp [step, hal, hil] at hfile; simpa [logStep, ha, hi, hal, hil] using hft sv hfile
+        · intro _; simp [step, logStep, hal, hil, ha, hi, h1]
+        · intro _ _; simp [step, logStep, hal, hil, ha, hi, hr, h0]
+        · intro _ h2; simp [step, hal, hil] at h2
   | run e t lt =>
-    by_cases hal : s.alive = true
-    · have hal' : l.alive = true := by rw [← ha]; exact hal
+    cases hal : s.alive with
+    | false => constructor <;> simp_all [step, logStep]
+    | true =>
       have h1 := hls hal
-      have ⟨h2, h3⟩ := hlp hal
-      constructor
-      · intro sv hfile; simp [step, hal] at hfile; simpa [logStep, hal'] using hft sv hfile
-      · intro _; simp [step, logStep, hal, hal', h1]
-      · intro _; simp [step, logStep, hal, hal', sumT_append]; omega
-    · have hal0 : s.alive = false := by simpa using hal
-      have hal' : l.alive = false := by rw [← ha]; exact hal0
-      constructor <;> simp_all [step, logStep]
+      cases hil : s.inLoop with
+      | true =>
+        have ⟨h2, h3⟩ := hlp hal hil
+        constructor
+        · intro sv hfile; simp [step, hal] at hfile; simpa [logStep, ha, hal] using hft sv hfile
+        · intro _; simp [step, logStep, hal, ha, h1]
+        · intro _ _; simp [step, logStep, hal, hil, ha, hi, sumT_append]; omega
+        · intro _ h4; simp [step, hal, hil] at h4
+      | false =>
+        have h0 := hpp hal hil
+        constructor
+        · intro sv hfile; simp [step, hal] at hfile; simpa [logStep, ha, hal] using hft sv hfile
+        · intro _; simp [step, logStep, hal, ha, h1]
+        · intro _ h4; simp [step, hal, hil] at h4
+        · intro _ _; simp [logStep, hal, hil, ha, hi, sumT_append, h0]
   | checkpoint =>
-    by_cases hal : s.alive = true
-    · have hal' : l.alive = true := by rw [← ha]; exact hal
+    cases hal : s.alive with
+    | false => constructor <;> simp_all [step, logStep]
+    | true =>
+      have hil := hck rfl hal
       have h1 := hls hal
-      have ⟨h2, h3⟩ := hlp hal
+      have ⟨h2, h3⟩ := hlp hal hil
       constructor
       · intro sv hfile
         simp [step, hal] at hfile
         subst hfile
-        simp [logStep, hal', sumT_append, h1, h3]
-      · intro _; simp [step, logStep, hal, hal', sumT_append, h1, h3]
-      · intro _; simp [step, logStep, hal, hal']
-    · have hal0 : s.alive = false := by simpa using hal
-      have hal' : l.alive = false := by rw [← ha]; exact hal0
-      constructor <;> simp_all [step, logStep]
+        simp [logStep, ha, hal, sumT_append, h1, h3]
+      · intro _; simp [step, logStep, hal, ha, sumT_append, h1, h3]
+      · intro _ _; simp [step, logStep, hal, ha]
+      · intro _ _; simp [logStep, hal, ha]
   | kill =>
     constructor
     · intro sv hfile; simp [step] at hfile; simpa [logStep] using hft sv hfile
     · simp [step]
     · simp [step]
+    · simp [step]
   | down d =>
-    by_cases hal : s.alive = true
-    · constructor <;> simp_all [step, logStep]
-    · have hal0 : s.alive = false := by simpa using hal
-      constructor
-      · intro sv hfile; simp [step, hal0] at hfile; simpa [logStep] using hft sv hfile
-      · simp [step, hal0]
-      · simp [step, hal0]
+    cases hal : s.alive <;> (constructor <;> simp_all [step, logStep])
 
 theorem invTle_step (c : Cfg) (s : St) (l : Log) (op : Op)
     (hc : InvC s l) (h : InvTle s l) : InvTle (step c s op) (logStep l op) := by
-  obtain ⟨ha, hn, _, _, _⟩ := hc
-  obtain ⟨hft, hls, hlp⟩ := h
+  obtain ⟨ha, hi, hd, hn, _, _, _⟩ := hc
+  obtain ⟨hft, hls, hlp, hpp⟩ := h
   cases op with
-  | launch =>
+  | resume =>
     cases hfile : s.file with
     | none =>
       have hcm := hn hfile
@@ -176,54 +190,80 @@ theorem invTle_step (c : Cfg) (s : St) (l : Log) (op : Op)
       constructor
       · intro sv' hf'; simp [step, hfile] at hf'; subst hf'; simp [step, hfile, logStep, h1, h2]
       · intro _; simp [step, logStep, hfile, h1]
-      · intro _
-        cases hrs : c.resetStart <;> simp [step, logStep, hfile, hrs, h2]
+      · intro _; cases hrs : c.rearmOnResume <;> simp [step, logStep, hfile, hrs, h2]
+      · intro _ _; simp [logStep]
+  | enterLoop =>
+    cases hal : s.alive with
+    | false => constructor <;> simp_all [step, logStep]
+    | true =>
+      cases hil : s.inLoop with
+      | true => constructor <;> simp_all [step, logStep]
+      | false =>
+        have h0 := hpp hal hil
+        have h1 := hls hal
+        have ⟨h2, h3⟩ := hlp hal
+        constructor
+        · intro sv hfile; simp [step, hal, hil] at hfile; simpa [step, logStep, ha, hi, hal, hil] using hft sv hfile
+        · intro _; simp [step, logStep, hal, hil, ha, hi, h1]
+        · intro _; cases hrs : c.resetStart <;> simp [step, logStep, hal, hil, ha, hi, hrs, h0, h2]
+        · intro _ h4; simp [step, hal, hil] at h4
   | run e t lt =>
-    by_cases hal : s.alive = true
-    · have hal' : l.alive = true := by rw [← ha]; exact hal
+    cases hal : s.alive with
+    | false => constructor <;> simp_all [step, logStep]
+    | true =>
       have h1 := hls hal
       have ⟨h2, h3⟩ := hlp hal
-      constructor
-      · intro sv hfile; simp [step, hal] at hfile
-        have := hft sv hfile
-        simp [step, logStep, hal, hal']; omega
-      · intro _; simp [step, logStep, hal, hal', h1]
-      · intro _; simp [step, logStep, hal, hal', sumT_append]; omega
-    · have hal0 : s.alive = false := by simpa using hal
-      have hal' : l.alive = false := by rw [← ha]; exact hal0
-      constructor <;> simp_all [step, logStep]
+      cases hil : s.inLoop with
+      | true =>
+        constructor
+        · intro sv hfile; simp [step, hal] at hfile
+          have := hft sv hfile
+          simp [step, logStep, hal, ha]; omega
+        · intro _; simp [step, logStep, hal, ha, h1]
+        · intro _; simp [step, logStep, hal, hil, ha, hi, sumT_append]; omega
+        · intro _ h4; simp [step, hal, hil] at h4
+      | false =>
+        have h0 := hpp hal hil
+        constructor
+        · intro sv hfile; simp [step, hal] at hfile
+          have := hft sv hfile
+          simp [step, logStep, hal, ha]; omega
+        · intro _; simp [step, logStep, hal, ha, h1]
+        · intro _; simp [step, logStep, hal, hil, ha, hi, sumT_append, h0]; omega
+        · intro _ _; simp [logStep, hal, hil, ha, hi, sumT_append, h0]
   | checkpoint =>
-    by_cases hal : s.alive = true
-    · have hal' : l.alive = true := by rw [← ha]; exact hal
+    cases hal : s.alive with
+    | false => constructor <;> simp_all [step, logStep]
+    | true =>
       have h1 := hls hal
       have ⟨h2, h3⟩ := hlp hal
       constructor
       · intro sv hfile
         simp [step, hal] at hfile
         subst hfile
-        simp [step, logStep, hal, hal', sumT_append]; omega
-      · intro _; simp [step, logStep, hal, hal', sumT_append]; omega
-      · intro _; simp [step, logStep, hal, hal']
-    · have hal0 : s.alive = false := by simpa using hal
-      have hal' : l.alive = false := by rw [← ha]; exact hal0
-      constructor <;> simp_all [step, logStep]
+        simp [step, logStep, hal, ha, sumT_append]; omega
+      · intro _; simp [step, logStep, hal, ha, sumT_append]; omega
+      · intro _; simp [step, logStep, hal, ha]
+      · intro _ _; simp [logStep, hal, ha]
   | kill =>
     constructor
     · intro sv hfile; simp [step] at hfile; simpa [logStep, step] using hft sv hfile
     · simp [step]
     · simp [step]
+    · simp [step]
   | down d =>
-    by_cases hal : s.alive = true
-    · constructor <;> simp_all [step, logStep]
-    · have hal0 : s.alive = false := by simpa using hal
+    cases hal : s.alive with
+    | true => constructor <;> simp_all [step, logStep]
+    | false =>
       constructor
-      · intro sv hfile; simp [step, hal0] at hfile
+      · intro sv hfile; simp [step, hal] at hfile
         have := hft sv hfile
-        simp [step, logStep, hal0]; omega
-      · simp [step, hal0]
-      · simp [step, hal0]
+        simp [step, logStep, hal]; omega
+      · simp [step, hal]
+      · simp [step, hal]
+      · simp [step, hal]
 
-/-- all three invariants along any history -/
+/-- the invariants along any history -/
 theorem inv_exec (c : Cfg) (hf : c.freshModel = true) (h : List Op) :
     ∀ (s : St) (l : Log), InvC s l → InvC (exec c s h) (logOf l h) := by
   induction h with
@@ -233,12 +273,30 @@ theorem inv_exec (c : Cfg) (hf : c.freshModel = true) (h : List Op) :
     simpa [exec, logOf] using ih _ _ (invC_step c hf s l op hi)
 
 theorem invT_exec (c : Cfg) (hf : c.freshModel = true) (hr : c.resetStart = true) (h : List Op) :
-    ∀ (s : St) (l : Log), InvC s l → InvT s l → InvT (exec c s h) (logOf l h) := by
+    ∀ (s : St) (l : Log), InvC s l → InvT s l → ckptInLoop l.alive l.inLoop h = true →
+      InvT (exec c s h) (logOf l h) := by
   induction h with
-  | nil => intro s l _ hi; simpa [exec, logOf] using hi
+  | nil => intro s l _ hi _; simpa [exec, logOf] using hi
   | cons op h ih =>
-    intro s l hc hi
-    simpa [exec, logOf] using ih _ _ (invC_step c hf s l op hc) (invT_step c hr s l op hc hi)
+    intro s l hc hi hk
+    have hc' := invC_step c hf s l op hc
+    have hck : op = Op.checkpoint → s.alive = true → s.inLoop = true := by
+      intro ho hal
+      subst ho
+      simp [ckptInLoop, hc.alive, hc.inLoop, hal] at hk
+      exact hk.1
+    have hk' : ckptInLoop (logStep l op).alive (logStep l op).inLoop h = true := by
+      cases op <;> simp [ckptInLoop, logStep] at hk ⊢
+      · exact hk
+      · cases hla : l.alive <;> cases hli : l.inLoop <;> simp_all
+      · cases hla : l.alive <;> simp_all
+      · cases hla : l.alive <;> simp_all
+        have h2 := hk.2
+        rw [hk.1] at h2
+        exact h2
+      · exact hk
+      · exact hk
+    simpa [exec, logOf] using ih _ _ hc' (invT_step c hr s l op hck hc hi) hk'
 
 theorem invTle_exec (c : Cfg) (hf : c.freshModel = true) (h : List Op) :
     ∀ (s : St) (l : Log), InvC s l → InvTle s l → InvTle (exec c s h) (logOf l h) := by
@@ -251,22 +309,28 @@ theorem invTle_exec (c : Cfg) (hf : c.freshModel = true) (h : List Op) :
 /-! ### the commit log never counts a step twice and loses steps only to kills -/
 
 theorem retained_sublist (h : List Op) :
-    ∀ l : Log, ((logOf l h).retained).Sublist (l.retained ++ performed l.alive h) := by
+    ∀ l : Log, ((logOf l h).retained).Sublist (l.retained ++ performed l.alive l.inLoop h) := by
   induction h with
   | nil => intro l; simp [logOf, performed]
   | cons op h ih =>
     intro l
     cases op with
-    | launch =>
-      have := ih { l with alive := true, pending := [] }
+    | resume =>
+      have := ih { l with alive := true, inLoop := false, pending := [] }
       simp only [logOf, List.foldl_cons, logStep, performed] at this ⊢
       refine this.trans ?_
       simp only [Log.retained, List.append_nil]
       exact List.Sublist.append (List.sublist_append_left _ _) (List.Sublist.refl _)
+    | enterLoop =>
+      cases hal : l.alive <;> cases hil : l.inLoop
+      all_goals
+        first
+        | (have := ih l; simpa [logOf, logStep, performed, hal, hil] using this)
+        | (have := ih { l with inLoop := true }; simpa [logOf, logStep, performed, hal, hil, Log.retained] using this)
     | run e t lt =>
       cases hal : l.alive with
       | true =>
-        have := ih { l with pending := l.pending ++ [(e, t, lt)] }
+        have := ih { l with pending := l.pending ++ [(e, if l.inLoop then t else 0, lt)] }
         simp only [logOf, List.foldl_cons, logStep, performed, hal, if_true] at this ⊢
         simpa [Log.retained, List.append_assoc, hal] using this
       | false =>
@@ -282,7 +346,7 @@ theorem retained_sublist (h : List Op) :
         have := ih l
         simpa [logOf, logStep, performed, hal] using this
     | kill =>
-      have := ih { l with alive := false }
+      have := ih { l with alive := false, inLoop := false }
       simpa [logOf, logStep, performed, Log.retained] using this
     | down d =>
       have := ih l
@@ -290,22 +354,32 @@ theorem retained_sublist (h : List Op) :
 
 theorem retained_all_without_kill (h : List Op) :
     ∀ l : Log, (l.alive = false → l.pending = []) → wellFormed l.alive h = true → (∀ op ∈ h, op ≠ Op.kill) →
-      (logOf l h).retained = l.retained ++ performed l.alive h := by
+      (logOf l h).retained = l.retained ++ performed l.alive l.inLoop h := by
   induction h with
   | nil => intro l _ _ _; simp [logOf, performed]
   | cons op h ih =>
     intro l hp hw hk
     have hk' : ∀ o ∈ h, o ≠ Op.kill := fun o ho => hk o (List.mem_cons_of_mem _ ho)
     cases op with
-    | launch =>
+    | resume =>
       simp [wellFormed] at hw
       have hpe := hp hw.1
-      have := ih { l with alive := true, pending := [] } (by simp) (by simpa using hw.2) hk'
+      have := ih { l with alive := true, inLoop := false, pending := [] } (by simp) (by simpa using hw.2) hk'
       simp only [logOf, List.foldl_cons, logStep, performed] at this ⊢
       rw [this]; simp [Log.retained, hpe]
+    | enterLoop =>
+      simp [wellFormed] at hw
+      cases hil : l.inLoop with
+      | true =>
+        have := ih l hp (by simpa [hw.1] using hw.2) hk'
+        simpa [logOf, logStep, performed, hw.1, hil] using this
+      | false =>
+        have := ih { l with inLoop := true } (by simpa using hp) (by simpa [hw.1] using hw.2) hk'
+        simpa [logOf, logStep, performed, hw.1, hil, Log.retained] using this
     | run e t lt =>
       simp [wellFormed] at hw
-      have := ih { l with pending := l.pending ++ [(e, t, lt)] } (by simp [hw.1]) (by simpa [hw.1] using hw.2) hk'
+      have := ih { l with pending := l.pending ++ [(e, if l.inLoop then t else 0, lt)] } (by simp [hw.1])
+        (by simpa [hw.1] using hw.2) hk'
       simp only [logOf, List.foldl_cons, logStep, performed, hw.1, if_true] at this ⊢
       rw [this]; simp [Log.retained]
     | checkpoint =>
